@@ -36,7 +36,7 @@ MAP = {
     "C07_m3": [("C07", "alac.stage.write.float.ch2.p3")], "C07_m4": [("C07", "xi.split.d2dsc")],
     "C11_m3": [("C11", "rt.upd.w64")], "C11_m4": [("C11", "cmd.SFC_UPDATE_HEADER_NOW")],
     "C12_m3": [("C12", None)], "C12_m4": [("C12", "chanmask")],
-    "C15_m3": [("C15", "readf.j")], "C15_m4": [("C15", "gsm")],
+    "C15_m3": [("C15", "readf.j")], "C15_m4": [("C15", "codec_init_close.gsm610")],
     "C16_m3": [("C16", "setters_close")], "C16_m4": [("C16", None)],
     "R_g711_intmin": [("C20", "g711.H_ENCODE_I")], "R_d2sc_clip": [("C02", "sc.WR_D.norm1.clip1")], "R_cmdstr0": [("C17", "cmd.SFC_GET_LIB_VERSION")],
     "R_embedshort": [("C14", "embed_open.au.k4,embed_open.au.k1.")], "R_peak_double": [("C18", "peak.double64.double.ch1")], "R_sds_close": [("C01", "blk.sds16.flush.k10")],
